@@ -45,6 +45,15 @@ def run_check(prop: str, tier: str, root: str) -> int:
             pass
         print(f"ANALYSIS-ERROR property={prop}: {e}")
         return 2
+    except BrokenPipeError:
+        # the reader of our output went away (`... | head -1`): the verdict is already in the evidence file; stay quiet
+        try:
+            sys.stdout = open(os.devnull, "w")
+        except Exception:
+            pass
+        if ck is not None and ck.obs:
+            return 1 if any(o.status == "violated" for o in ck.obs) else 0
+        return 2
     except Exception as e:  # a traceback must never look like a violation
         try:
             if ck is not None and any(o.status == "violated" for o in ck.obs):
